@@ -19,7 +19,8 @@ type Profile struct {
 	MulDiv        bool
 	Tuple3        bool
 	Generics      bool // generic helper functions and generic unions
-	Buf           bool
+	Buf           bool // buf.Buffer episodes
+	Dict          bool // dict.Dict episodes
 	RecursiveTys  bool
 	LowerFields   bool // records with lower-case field names (values of such records are never printed with %v)
 	Equality      bool // boost = / <> on composite values
@@ -37,7 +38,7 @@ type Profile struct {
 }
 
 var Full = Profile{Name: "full", Probes: true, Lambdas: true, LocalFuncs: true, StringMatch: true, Interp: true, MulDiv: true, Tuple3: true,
-	Generics: true, Buf: true, RecursiveTys: true, MaxUnits: 8, MaxDepth: 4, AnnotateAll: true}
+	Generics: true, Buf: true, Dict: true, RecursiveTys: true, MaxUnits: 8, MaxDepth: 4, AnnotateAll: true}
 
 // FuncSig is a callable known to the generator.
 type FuncSig struct {
@@ -1237,7 +1238,7 @@ func (g *Gen) unitExpr(sc *scope, depth int) *Expr {
 }
 
 // Tiny is the early-Folang subset tinyfo accepts (property C17).
-var Tiny = Profile{Name: "tinyfo", Probes: true, Tinyfo: true, NoInlineIf: true, NoFieldFn: true, InlineRhsOnly: true, NoShadow: true,
+var Tiny = Profile{Name: "tinyfo", Probes: true, Tinyfo: true, NoInlineIf: true, NoFieldFn: true, InlineRhsOnly: true,
 	MaxUnits: 6, MaxDepth: 3, AnnotateAll: true}
 
 // TinyPkgInfo declares, in tinyfo's package_info dialect, every library
